@@ -531,10 +531,7 @@ func c08Raw(r *Rand, typ byte, tier string) []byte {
 	sig := r.Bytes(64)
 	switch typ {
 	case p2p.PeerMessageTypePreCommitments:
-		n := Pick(r, []int{0, 1, 2, 3, 16, 512, 1023, 1024, 1025, r.Range(0, 40)})
-		if tier == "quick" && n > 40 && r.Chance(3, 4) {
-			n = r.Range(0, 8)
-		}
+		n := Pick(r, []int{0, 1, 2, 3, 16, 512, 1023, 1024, 1025, r.Range(0, 40), r.Range(0, 8), r.Range(0, 8)})
 		claim := n + Pick(r, []int{0, 0, 0, 0, 1, -1, 65536 - n})
 		d = append(d, sig...)
 		d = binary.BigEndian.AppendUint16(d, uint16(claim))
@@ -653,6 +650,36 @@ func c08Raw(r *Rand, typ byte, tier string) []byte {
 	return d
 }
 
+// total message lengths at, one below and one above every length test of the parser
+var c08Bounds = map[byte][]int{
+	15: {66, 67, 68, 79, 80, 81, 98, 99, 100}, 4: {69, 70, 71, 72, 73}, 1: {1, 2}, 3: {137, 138, 139}, 5: {32, 33, 34},
+	6: {32, 33, 34}, 20: {96, 97, 98, 99, 100, 101, 102}, 21: {127, 128, 129, 130, 160, 161, 162}, 24: {255, 256, 257, 258},
+	22: {104, 105, 106, 107}, 23: {64, 65, 66}, 200: {64, 65, 66}, 201: {1, 2}, 7: {1, 2}, 8: {1, 2, 5, 6}, 9: {1, 2, 5, 6}, 25: {1, 2, 104, 105},
+}
+
+// resize a message of type typ to one of its boundary lengths, keeping its (valid) prefix
+func c08AtBound(r *Rand, d []byte) []byte {
+	if len(d) == 0 {
+		return d
+	}
+	bs := c08Bounds[d[0]]
+	if len(bs) == 0 {
+		return d
+	}
+	n := Pick(r, bs)
+	m := bytes.Clone(d)
+	for len(m) < n {
+		if r.Bool() {
+			m = append(m, 0)
+		} else {
+			m = append(m, byte(r.U64()))
+		}
+	}
+	return m[:n]
+}
+
+var c08HugeBuf []byte
+
 var c08Types = []byte{1, 3, 4, 5, 6, 7, 8, 9, 15, 20, 21, 22, 23, 24, 25, 200, 201}
 
 // builder op lines for one message kind; returns the op line and (when the builder does not
@@ -737,10 +764,7 @@ func c08BuilderCase(r *Rand, kind int, tier string) (string, []byte) {
 		line = fmt.Sprintf("b-graph %s ? %s", Hex(priv[:]), c08Points(h.graph))
 		build(func() []byte { return p2p.VerifBuildGraphMessage(h) })
 	default: // pre-commitments
-		n := Pick(r, []int{0, 1, 2, 3, 16, 512, 1024, 1025, r.Range(1, 30)})
-		if tier == "quick" && n > 30 && r.Chance(2, 3) {
-			n = r.Range(1, 12)
-		}
+		n := Pick(r, []int{0, 1, 2, 3, 16, 512, 1024, 1025, r.Range(1, 30), r.Range(1, 12)})
 		var keys []*crypto.Key
 		var kl [][]byte
 		vk := c08ValidPoint(r)
@@ -791,12 +815,13 @@ func c08Gen(r *Rand, i int, tier string) []string {
 			for k, n := 0, r.Range(1, 4); k < n; k++ {
 				out = append(out, c08ParseLine(2, c08Mutate(r, built)))
 			}
+			out = append(out, c08ParseLine(2, c08AtBound(r, built)))
 		}
 		return out
 	case 4, 5, 6, 7: // structured raw message of one type
 		typ := c08Types[i%len(c08Types)]
 		d := c08Raw(r, typ, tier)
-		out := []string{c08ParseLine(2, d)}
+		out := []string{c08ParseLine(2, d), c08ParseLine(2, c08AtBound(r, d))}
 		if r.Bool() {
 			out = append(out, c08ParseLine(2, c08Mutate(r, d)))
 		}
@@ -1039,10 +1064,11 @@ func c08ExecBuild(t []string) Result {
 			txs := c08ParseList(t[4])
 			want := c08DecodeSnap(sb)
 			built = p2p.VerifBuildBatchFullChallengeMessage(s, &cm, &ch, c08DecodeTxs(txs))
-			if cm.CheckKey() && ch.CheckKey() && want.Signature != nil {
-				if len(built)-1 < 256 {
-					res.Tags = append(res.Tags, "b-full:below-256")
-				}
+			if len(built)-1 < 256 {
+				// only with an empty transaction list (the node always sends the snapshot's
+				// transactions, at least one): below the parser's minimum, outside the statement
+				res.Tags = append(res.Tags, "b-full:below-256")
+			} else if cm.CheckKey() && ch.CheckKey() && want.Signature != nil {
 				c08RoundTrip(&res, "full-challenge", built, func(m *p2p.PeerMessage) string {
 					switch {
 					case m.Type != p2p.PeerMessageTypeBatchFullChallenge:
@@ -1246,12 +1272,25 @@ func execPeerMsg(_ *State, line string) Result {
 		if typ == p2p.PeerMessageTypeBatchTransactionChallenge {
 			prefix = append(prefix, make([]byte, 104)...)
 		}
-		data := make([]byte, len(prefix)+1+4+int(size)) // fresh zero pages; no make+copy (that clears 4 GiB by hand)
+		// one lazily mapped buffer for all probes (a second allocation of this size may reuse
+		// the first one's span, which the runtime then clears by hand: minutes); only the
+		// header bytes are ever written, and they are zeroed again below
+		if c08HugeBuf == nil {
+			c08HugeBuf = make([]byte, 1<<32+256)
+		}
+		n := len(prefix) + 1 + 4 + int(size)
+		if n > len(c08HugeBuf) {
+			panic("harness: huge size out of range")
+		}
+		data := c08HugeBuf[:n:n]
 		for i, b := range prefix {
 			data[i] = b
 		}
-		data[len(prefix)] = 1
-		binary.BigEndian.PutUint32(data[len(prefix)+1:], uint32(size))
+		defer func() {
+			for i := 0; i < len(prefix)+5; i++ {
+				data[i] = 0
+			}
+		}()
 		_, panicked, pmsg := Catch(func() string {
 			_, _ = p2p.VerifParseNetworkMessage(2, data)
 			return ""
